@@ -49,6 +49,9 @@ func runC10(c *core.Ctx) {
 	}
 	g := gen.New(c.R)
 	t := caseTree(c, g, 7)
+	if c.Case%8 == 6 && c.Case >= gen.SweepSize() {
+		t = repeatLayer(c, g, t)
+	}
 	coverTree(c, t)
 	if t.Depth() >= 3 || t.HasKind(gen.MultiKinds...) {
 		c.Nontrivial(t.Sig())
